@@ -20,6 +20,7 @@ RULE = ("stream 'shape': random stack shapes (depth 1..6, parallel groups of 1..
         "stream 'helpers': getCoreLayers/getProtocolLayers/getDefaultLayers/getDefaultStack for all 16/32 flag combinations. "
         "distinct = distinct (shape, behaviours, op).")
 RULE += (" The stack's loop runs three idle passes before the harness leaves it.")
+RULE += (" stream 'reuse': a layer instance (plain or parallel group) of a first stack handed to a second stack at every position: nothing of the first stack is reachable from the second.")
 ASSUMPTIONS = ["layers are seen by the framework through send/receive/onEvent/toLower/toUpper/emitEvent/broadcastEvent only",
                "one thread drives the stack in this check (C11/C12 cover concurrency)"]
 
@@ -162,6 +163,8 @@ def _rand_case(r, maxdepth=6, maxgroup=4):
 
 
 def cases(chk):
+    for where in ("top", "bottom", "middle", "group-top", "group-bottom", "mid-to-top", "mid-to-bottom", "group-mid-to-top", "group-mid-to-bottom", "top-to-bottom", "bottom-to-top"):
+        yield "reuse", {"where": where}
     r = chk.rng
     yield "helpers", {}
     yield "shape", {"slots": [1, [2, 3], 4], "layers": {str(i): {"cls": i, "tx": "pass", "rx": "pass", "cons": None, "iface": 100 + i} for i in range(1, 5)},
@@ -326,9 +329,63 @@ def spec_event(case, slots, ev):
 
 # ------------------------------------------------------------------------------- running
 
+def run_reuse(chk, case):
+    """a layer INSTANCE (a plain layer or a parallel group object) that was part of one stack is handed to a second stack: the second stack is
+    the given layers in the given order and nothing else — nothing of the first stack is reachable from it"""
+    from yowsup.layers import YowLayerEvent
+    del LOG[:]
+
+    def mk(lid):
+        l = RecLayer()
+        l.LID = lid
+        return l
+    a, b, c = mk(1), mk(2), mk(3)
+    g = YowParallelLayer((RecLayer, RecLayer))
+    g.sublayers[0].LID, g.sublayers[1].LID = 4, 5
+    # (where the instance sat in the first stack: "mid-" = between two layers, otherwise at the same end as in the second stack)
+    first = {"top": (a, b, c), "bottom": (c, b, a), "middle": (a, c, b), "group-top": (a, b, g), "group-bottom": (g, b, a),
+             "mid-to-top": (a, c, b), "mid-to-bottom": (a, c, b), "group-mid-to-top": (a, g, b), "group-mid-to-bottom": (a, g, b),
+             "top-to-bottom": (a, b, c), "bottom-to-top": (c, b, a)}[case["where"]]
+    YowStack(first, reversed=False)
+    x, y = mk(7), mk(8)
+    reused = g if case["where"].startswith("group") else c
+    second = {"top": (x, y, reused), "bottom": (reused, x, y), "middle": (x, reused, y), "group-top": (x, y, reused), "group-bottom": (reused, x, y),
+              "mid-to-top": (x, y, reused), "mid-to-bottom": (reused, x, y), "group-mid-to-top": (x, y, reused), "group-mid-to-bottom": (reused, x, y),
+              "top-to-bottom": (reused, x, y), "bottom-to-top": (x, y, reused)}[case["where"]]
+    st2 = YowStack(second, reversed=False)
+    own = set([7, 8]) | (set([4, 5]) if reused is g else set([3]))
+    out = []
+    chk.hit("reuse:" + case["where"])
+    for what in ("send", "receive", "emit", "broadcast"):
+        del LOG[:]
+        try:
+            if what == "send":
+                st2.send(11)
+            elif what == "receive":
+                st2.receive(12)
+            elif what == "emit":
+                st2.emitEvent(YowLayerEvent("5"))
+            else:
+                st2.broadcastEvent(YowLayerEvent("6"))
+        except Exception as e:
+            out.append(oracle("C18:reused-instance:raises", "layer instance reused at %s of a second stack: %s raises %s: %s" % (case["where"], what, type(e).__name__, e)))
+            break
+        seen = [int(t[1:].split(":")[0]) for t in LOG]
+        foreign = [l for l in seen if l not in own]
+        missing = sorted(own - set(seen))
+        if foreign or missing:
+            out.append(oracle("C18:reused-instance:%s" % ("reaches-the-first-stack" if foreign else "misses-layers"),
+                              "a layer instance of a first stack (layers 1-5) reused at %s of a second stack (layers %s): %s in the second stack was seen by %s%s"
+                              % (case["where"], sorted(own), what, seen, " — layers %s belong to the FIRST stack" % sorted(set(foreign)) if foreign else " — layers %s of the stack saw nothing" % missing)))
+            break
+    return out
+
+
 def run_case(chk, stream, case):
     if stream == "helpers":
         return run_helpers(chk)
+    if stream == "reuse":
+        return run_reuse(chk, case)
     fails = []
     d = chk.driver
     d.ask("stack reset")
@@ -496,7 +553,7 @@ def run_helpers(chk):
 
 
 def shrink(stream, case):
-    if stream == "helpers":
+    if stream in ("helpers", "reuse"):
         return
     slots = case["slots"]
     for i in range(len(slots)):
